@@ -417,6 +417,10 @@ def cases(shard, nshards, seed, tier):
     for j, fn in enumerate(STRUCTS):
         if (tier != "quick" or j % 2 == 0) and mine():
             yield {"family": "adapter-two-listings", "file": fn, "ops": [], "gaps": j % 4 == 0}
+    # ... with unit ids in their full nine-field form (XXXX|1|A|DG|1||||1_555)
+    for fn in ("tests/184D.cif", "tests/1E7K_1_C.cif"):
+        if mine():
+            yield {"family": "adapter-two-listings", "file": fn, "ops": [], "gaps": False, "nine_fields": True}
     # ... for structures with insertion codes (unit ids with eight fields: 1EHZ|1|A|C|27|||A)
     for fn in ("tests/1ehz-assembly-1.cif", "tests/1E7K_1_C.cif", "tests/4qln.cif"):
         if mine():
@@ -602,6 +606,9 @@ def _adapter_two_listings(case, rec):
 
     def unit(r):
         a = r.auth
+        if case.get("nine_fields"):
+            # the full form FR3D writes when a symmetry operator is given: atom, alternate id and insertion code empty
+            return "|".join(["XXXX", "1", a.chain, a.name, str(a.number), "", "", a.icode or "", "1_555"])
         return "|".join(["XXXX", "1", a.chain, a.name, str(a.number)] + (["", "", a.icode] if a.icode else []))
 
     rec.mark_nontrivial(True)
